@@ -182,11 +182,23 @@ func requirement(w *World, d *Deployed, c *CallInfo) wReq {
 			}
 		}
 	case "audit":
-		// put: the reporter key sits inside the result; membership in the role is state
+		// put: the reporter key sits inside the result (documented V2 layout:
+		// version, 8-byte epoch, container id, public key); membership in the
+		// role is state, not a witness
 		if m == "put" && len(c.Args) == 1 {
-			if b, ok := argBytes(c.Args[0]); ok {
-				if i := strings.Index(string(b), "\x0a\x21"); i >= 0 {
-					_ = i
+			if in, ok := argBytes(c.Args[0]); ok && len(in) > 2 {
+				off := 2 + int(in[1]) + 1 + 8
+				if len(in) > off+3 {
+					cidLen := int(in[off+3])
+					k := off + 3 + 1 + cidLen + 1
+					if len(in) > k {
+						keyLen := int(in[k])
+						if len(in) >= k+1+keyLen {
+							if h, ok := keyHash(in[k+1 : k+1+keyLen]); ok {
+								return wReq{known: true, alts: [][]util.Uint160{wAlt(h)}}
+							}
+						}
+					}
 				}
 			}
 		}
@@ -304,7 +316,67 @@ func requirement(w *World, d *Deployed, c *CallInfo) wReq {
 			return none
 		}
 	case "nns":
+		// owner / admin of the longest registered enclosing name, read through
+		// the read API (committee for TLDs and committee-owned names)
+		nameAuth := func(name string) (wReq, bool) {
+			name = strings.TrimSuffix(name, ".")
+			labels := strings.Split(name, ".")
+			for i := 0; i < len(labels)-1; i++ {
+				cand := strings.Join(labels[i:], ".")
+				it, err := w.readNoHook(d.Hash, "properties", cand)
+				if err != nil {
+					continue
+				}
+				r := wReq{known: true}
+				own, oerr := w.readNoHook(d.Hash, "ownerOf", cand)
+				if oerr != nil {
+					return wReq{}, false
+				}
+				if h, ok := argHash160(own); ok {
+					r.alts = append(r.alts, wAlt(h))
+				} else {
+					r.alts = append(r.alts, wAlt(C)) // committee-owned
+				}
+				if mp, ok := it.Value().([]stackitem.MapElement); ok {
+					for _, e := range mp {
+						if k, _ := e.Key.TryBytes(); string(k) == "admin" {
+							if h, ok := argHash160(e.Value); ok {
+								r.alts = append(r.alts, wAlt(h))
+							}
+						}
+					}
+				}
+				return r, true
+			}
+			return wReq{}, false
+		}
 		switch m {
+		case "addRecord", "setRecord", "deleteRecords", "updateSOA", "renew":
+			if len(c.Args) > 0 {
+				if nb, ok := argBytes(c.Args[0]); ok {
+					if strings.Count(strings.TrimSuffix(string(nb), "."), ".") == 0 {
+						return reqC // a TLD
+					}
+					if r, ok := nameAuth(string(nb)); ok {
+						return r
+					}
+				}
+			}
+			return wReq{}
+		case "setAdmin":
+			if len(c.Args) == 2 {
+				nb, _ := argBytes(c.Args[0])
+				if own, err := w.readNoHook(d.Hash, "ownerOf", string(nb)); err == nil {
+					if h, ok := argHash160(own); ok {
+						r := wReq{known: true, alts: [][]util.Uint160{wAlt(h)}}
+						if ah, ok := argHash160(c.Args[1]); ok {
+							r = and(r, ah)
+						}
+						return r
+					}
+				}
+			}
+			return wReq{}
 		case "registerTLD", "setPrice":
 			return reqC
 		case "transfer":
